@@ -39,6 +39,8 @@ class OpsGen:
     def level_ops(self, level, path, out):
         m = self.m
         first_field = None
+        prev_end = 0
+        lvl_base = m.enc_size(m.header()) if not path else 0
         for f, off in m.level_layout(level)[0]:
             if off is None:
                 continue
@@ -49,17 +51,37 @@ class OpsGen:
                 items = [("l.%s()" % f.name, "scalar", [])]
             else:
                 items = self.leafs("l.%s()" % f.name, enc, [])
+            # cursor forms with the cursor placed (through the documented cursor::pointer()) exactly where the
+            # protocol requires it for this field, *without* touching the buffer first: a preceding checked read
+            # would assert for every short n and hide a missing check in the cursor path
+            place = "sbepp::cursor<char> c; c.pointer() = sbepp::addressof(l) + %d;" % (lvl_base + prev_end)
+            is_scalar = items[0][1] == "scalar"
+            vt = "typename std::decay<decltype(l.%s())>::type" % f.name
+            for wn, wx in (("plain", "c"), ("dont_move", "sbepp::cursor_ops::dont_move(c)"),
+                           ("init_dont_move", "sbepp::cursor_ops::init_dont_move(c)")):
+                if is_scalar:
+                    out.append(Op("get-cursor-" + wn, path, (f.name, ()), "{ %s vrt::sink(vrt::txt(l.%s(%s))); }" % (place, f.name, wx), "leaf"))
+                    out.append(Op("set-cursor-" + wn, path, (f.name, ()), "{ %s %s v{}; l.%s(v, %s); }" % (place, vt, f.name, wx), "leaf"))
+                else:
+                    out.append(Op("view-cursor-" + wn, path, (f.name, ()), "{ %s auto v = l.%s(%s); (void)v; }" % (place, f.name, wx), "leaf"))
+            out.append(Op("cursor-skip", path, (f.name, ()), "{ %s l.%s(sbepp::cursor_ops::skip(c)); }" % (place, f.name), "leaf"))
+            prev_end = off + m.field_size(f)
             for acc, kind, chain in items:
                 mem = (f.name, tuple(chain))
                 if kind == "scalar":
                     out.append(Op("get", path, mem, "vrt::sink(vrt::txt(%s));" % acc, "leaf"))
                     setter = acc[:-2]  # strip "()"
                     out.append(Op("set", path, mem, "{ auto v = %s; %s(v); }" % (acc, setter), "leaf"))
+                    out.append(Op("set-blind", path, mem, "{ typename std::decay<decltype(%s)>::type v{}; %s(v); }" % (acc, setter), "leaf"))
                     if not chain:
                         out.append(Op("get-cursor-init", path, mem,
                                       "{ sbepp::cursor<char> c; vrt::sink(vrt::txt(l.%s(sbepp::cursor_ops::init(c)))); }" % f.name, "leaf"))
                         out.append(Op("set-cursor-init", path, mem,
                                       "{ sbepp::cursor<char> c; auto v = l.%s(); l.%s(v, sbepp::cursor_ops::init(c)); }" % (f.name, f.name), "leaf"))
+                        out.append(Op("set-cursor-init-blind", path, mem,
+                                      "{ sbepp::cursor<char> c; typename std::decay<decltype(l.%s())>::type v{}; l.%s(v, sbepp::cursor_ops::init(c)); }" % (f.name, f.name), "leaf"))
+                        out.append(Op("set-by-tag-blind", path, mem,
+                                      "{ typename std::decay<decltype(l.%s())>::type v{}; sbepp::set_by_tag<typename LT::%s>(l, v); }" % (f.name, f.name), "leaf"))
                         out.append(Op("get-by-tag", path, mem, "vrt::sink(vrt::txt(sbepp::get_by_tag<typename LT::%s>(l)));" % f.name, "leaf"))
                 elif kind == "composite":
                     out.append(Op("composite-size", path, mem, "vrt::sink(sbepp::size_bytes(%s));" % acc, "none"))
@@ -94,6 +116,10 @@ class OpsGen:
                           "{ sbepp::cursor<char> c; auto g = l.%s(sbepp::cursor_ops::init(c)); std::size_t k = 0; "
                           "vrt::rec_visitor<char> v{-1, nullptr}; v.entry_counters.push_back(0); "
                           "for(const auto e : g.cursor_range(c)) { (void)e; sbepp::visit_children(e, c, v); ++k; } vrt::sink(k); vrt::out().clear(); }" % g.name, "group"))
+            gplace = "sbepp::cursor<char> c; c.pointer() = sbepp::addressof(%s);" % acc
+            out.append(Op("group-cursor-plain", path, mem, "{ %s auto g = l.%s(c); vrt::sink(g.size()); }" % (gplace, g.name), "group-header"))
+            out.append(Op("group-cursor-dont_move", path, mem, "{ %s auto g = l.%s(sbepp::cursor_ops::dont_move(c)); vrt::sink(g.size()); }" % (gplace, g.name), "group-header"))
+            out.append(Op("group-cursor-skip", path, mem, "{ %s l.%s(sbepp::cursor_ops::skip(c)); }" % (gplace, g.name), "group"))
             if not g.groups and not g.data:
                 out.append(Op("flat-front-back", path, mem, "{ auto g = %s; if(!g.empty()) { auto e = g.front(); (void)e; auto b = g.back(); (void)b; %s } }"
                               % (acc, read_first.replace("e.", "b.")), "group", needs_nonempty=True))
@@ -122,6 +148,10 @@ class OpsGen:
                           "{ auto d = %s; std::vector<unsigned char> b(d.size(), 0x43); d.assign_range(b); }" % acc, "data"))
             out.append(Op("data-assign-count-same", path, mem, "{ auto d = %s; d.assign(d.size(), static_cast<%s>(0x44)); }" % (acc, vt), "data"))
             out.append(Op("data-cursor-init", path, mem, "{ sbepp::cursor<char> c; vrt::sink(l.%s(sbepp::cursor_ops::init(c)).size()); }" % d.name, "data-prefix"))
+            dplace = "sbepp::cursor<char> c; c.pointer() = sbepp::addressof(%s);" % acc
+            out.append(Op("data-cursor-plain", path, mem, "{ %s vrt::sink(l.%s(c).size()); }" % (dplace, d.name), "data"))
+            out.append(Op("data-cursor-dont_move", path, mem, "{ %s vrt::sink(vrt::txt(l.%s(sbepp::cursor_ops::dont_move(c)))); }" % (dplace, d.name), "data"))
+            out.append(Op("data-cursor-skip", path, mem, "{ %s l.%s(sbepp::cursor_ops::skip(c)); }" % (dplace, d.name), "data"))
         for g in level.groups:
             self.level_ops(g, path + [g.name], out)
 
